@@ -62,13 +62,13 @@ var (
 	c01Fail   string // the one failing site ("" = none)
 	c01Failed bool   // the failing site was reached
 
-	c01CidPuts    []c01CidPut
-	c01SlotPuts   []c01SlotPut
-	c01BtSets     []c01BtSet
-	c01SigPuts    []c01SigPut
-	c01SigExists  []solana.Signature
+	c01CidPuts   []c01CidPut
+	c01SlotPuts  []c01SlotPut
+	c01BtSets    []c01BtSet
+	c01SigPuts   []c01SigPut
+	c01SigExists []solana.Signature
 	// one cell per index (the sealing closures run concurrently; no shared cell between them)
-	c01Sealed = map[string]*int{"cid_to_offset_and_size": new(int), "slot_to_cid": new(int), "sig_to_cid": new(int), "sig_exists": new(int), "slot_to_blocktime": new(int)}
+	c01Sealed     = map[string]*int{"cid_to_offset_and_size": new(int), "slot_to_cid": new(int), "sig_to_cid": new(int), "sig_exists": new(int), "slot_to_blocktime": new(int)}
 	c01PutAfterOK bool // a sink was written after its Seal (would be lost)
 	c01CidW       *indexes.CidToOffsetAndSize_Writer
 	c01SlotW      *indexes.SlotToCid_Writer
@@ -261,13 +261,15 @@ func c01Model_SigToCidSeal(w *indexes.SigToCid_Writer, ctx context.Context, dstD
 	return c01Seal("sig_to_cid")
 }
 func c01Model_CidToOffsetClose(w *indexes.CidToOffsetAndSize_Writer) error { return nil }
-func c01Model_SlotToCidClose(w *indexes.SlotToCid_Writer) error           { return nil }
-func c01Model_SigToCidClose(w *indexes.SigToCid_Writer) error             { return nil }
+func c01Model_SlotToCidClose(w *indexes.SlotToCid_Writer) error            { return nil }
+func c01Model_SigToCidClose(w *indexes.SigToCid_Writer) error              { return nil }
 func c01Model_CidToOffsetPath(w *indexes.CidToOffsetAndSize_Writer) string {
 	return "/memfs/idx/cid-to-offset-and-size.index"
 }
-func c01Model_SlotToCidPath(w *indexes.SlotToCid_Writer) string { return "/memfs/idx/slot-to-cid.index" }
-func c01Model_SigToCidPath(w *indexes.SigToCid_Writer) string   { return "/memfs/idx/sig-to-cid.index" }
+func c01Model_SlotToCidPath(w *indexes.SlotToCid_Writer) string {
+	return "/memfs/idx/slot-to-cid.index"
+}
+func c01Model_SigToCidPath(w *indexes.SigToCid_Writer) string { return "/memfs/idx/sig-to-cid.index" }
 
 func c01Model_bucketteerNewWriter(path string) (*bucketteer.Writer, error) {
 	if c01FailHere("bucketteer.NewWriter") {
@@ -347,10 +349,15 @@ func c01Sites() []string {
 func VerifC01Offsets() {
 	kmin, kmax := verifParam("kmin", 0), verifParam("kmax", 2)
 	k := kmin + verifChoice("sections", kmax-kmin+1)
+	// well-formed CAR within the limits of the index formats: header + sections below 2^48 bytes,
+	// every section at most 2^24-1 bytes, slots inside the epoch, block times in [0, 2^32)
 	c01H = verifU64("headerSize")
 	c01EpochN = verifU64("epoch")
+	verifAssume(c01H < 1<<47)
+	verifAssume(c01EpochN <= (1<<64-1)/432000-1)
 	for i := 0; i < k; i++ {
 		s := c01Sec{cid: c01Cid(i), length: verifU64("sectionLength")}
+		verifAssume(s.length <= indexes.MaxUint24)
 		if verifParam("fixedKinds", 0) == 1 {
 			s.kind = c01Kinds[i%len(c01Kinds)]
 		} else {
@@ -358,7 +365,11 @@ func VerifC01Offsets() {
 		}
 		switch s.kind {
 		case iplddecoders.KindBlock:
-			s.slot, s.blocktime = verifU64("slot"), verifI64("blocktime")
+			d := verifU64("slotInEpoch")
+			verifAssume(d < 432000)
+			s.slot, s.blocktime = c01EpochN*432000+d, verifI64("blocktime")
+			verifAssume(s.blocktime >= 0)
+			verifAssume(s.blocktime <= 0xFFFFFFFF)
 		case iplddecoders.KindTransaction:
 			copy(s.sig[:], verifBytes("sig", 64))
 		}
